@@ -301,3 +301,9 @@ NOT_COVERED = [
 ]
 EXPLANATION = ("Every obligation generated from the real bodies of the three rule-checking functions of _namespace.py "
                "against the oracle predicates collide/compat transcribed from the property statement.")
+
+
+# effect obligations (AST, complete for what they state): no memoising decorator, no module-level state - see specs/common.py
+from .common import no_hidden_state_check as _no_hidden_state_check  # noqa: E402
+EXTRA_CHECKS = list(globals().get("EXTRA_CHECKS", [])) + [_no_hidden_state_check(
+    ["pydsdl._namespace", "pydsdl._dsdl"], "the cross-definition checks")]
